@@ -29,13 +29,50 @@ THEOREMS = [
     "OllamaVerif.C04.op_frame",
     "OllamaVerif.C04.history_preserves_Inv",
     "OllamaVerif.C04.prune_exact",
+    "OllamaVerif.C04.no_case_twins_partial",
+    "OllamaVerif.C04.reachable_no_twins",
+    "OllamaVerif.C04.F16a_delete_witness",
+    "OllamaVerif.C04.F16a_breaks_NameInv",
+    "OllamaVerif.C04.F16a_prune_witness",
+    "OllamaVerif.C04.F16b_twin_witness",
+    "OllamaVerif.C04.F16b_breaks_NoTwins",
+    "OllamaVerif.C04.N1_create_continues_witness",
+    "OllamaVerif.C04.wEnv_inj",
 ]
 OVERLAY = {"server/zz_verif_c04_test.go": "server/zz_verif_c04_test.go"}
 
 
+SERVE_SEQUENCE = ["fixBlobs(blobsDir)", "envconfig.NoPrune()", "Manifests(false)", "PruneLayers()",
+                  "PruneDirectory(manifestsPath)"]
+
+
+def serve_sequence_tie(ctx):
+    """Tie 1 (textual): the driver's `prune` operation transcribes the startup sequence of Serve; check that
+    routes.go still performs exactly these calls in this order before it starts serving."""
+    import os
+    import re
+    try:
+        src = open(os.path.join(core.REPO, "server", "routes.go")).read()
+    except OSError as e:
+        ctx.violation("serve-sequence", "", f"cannot read routes.go: {e}", no_input=True)
+        return
+    m = re.search(r"^func Serve\(.*?^}", src, flags=re.S | re.M)
+    body = m.group(0) if m else ""
+    pos = -1
+    for call in SERVE_SEQUENCE:
+        nxt = body.find(call, pos + 1)
+        if nxt < 0:
+            ctx.violation("serve-sequence", "", f"Serve no longer contains `{call}` after the previous startup "
+                          f"call; the driver's transcription of the startup prune is stale", no_input=True)
+            return
+        pos = nxt
+    ctx.coverage["serve_sequence_tie"] = "ok: " + " -> ".join(SERVE_SEQUENCE)
+
+
 def run(ctx):
+    serve_sequence_tie(ctx)
     ctx.lean_check(MODULES, THEOREMS)
-    env = {"VERIF_N": ctx.scale(150, 3000), "VERIF_OPS": 40}
+    env = {"VERIF_N": ctx.scale(400, 6000), "VERIF_OPS": 40}
     if ctx.replay:
         env["VERIF_REPLAY"] = ctx.replay_line_file()
     rc, out, outdir = ctx.go_test("./server/", OVERLAY, "^TestVerifC04$", env=env, timeout=1500)
